@@ -1399,6 +1399,21 @@ fn w_c16_c17_stmt() {
             assert!(seen.iter().map(|x| x.1.clone()).collect::<Vec<_>>() == want, "[C17.w.longdata] execution {} of a 10-parameter statement saw {:?}, expected {:?}", k, seen, want);
         }
     }
+    // long data for a parameter that an EARLIER execution bound as something else (NULL, an integer): the types that go
+    // with the long data only arrive with the next execution
+    for first in [(6u8, None), (3u8, Some(5u32.to_le_bytes().to_vec())), (253u8, Some(s(b"old")))] {
+        let cmds = vec![(c_prepare(b"p:1:2:0"), 0),
+            (c_execute(1, &[(first.0, false, first.1.clone()), (253, false, Some(s(b"x")))], true), 0),
+            (c_long(1, 0, b"Hello, "), 0), (c_long(1, 0, b"world"), 0),
+            (c_execute(1, &[(252, false, Some(vec![])), (253, false, Some(s(b"tail")))], true), 0), quit()];
+        let r = converse(hs41(b"u", 0), &cmds, vec![], false, None, None);
+        assert!(r.result.is_ok() && !r.panicked, "[C17.w.run] long data after a type-{} binding failed: {:?}", first.0, r.result);
+        let ex: Vec<&Ev> = r.log.iter().filter(|e| matches!(e, Ev::Execute(..))).collect();
+        assert!(ex.len() == 2, "[C17.w.run] {} executions reached the shim", ex.len());
+        if let Ev::Execute(_, seen) = ex[1] {
+            assert!(seen.len() == 2 && seen[0].1 == format!("Bytes({:?})", b"Hello, world".to_vec()) && seen[1].1 == format!("Bytes({:?})", b"tail".to_vec()), "[C17.w.longdata] long data sent after parameter 0 had been bound as type {}: the execution saw {:?}", first.0, seen);
+        }
+    }
     // a rebind replaces the earlier types COMPLETELY, whatever the new type is: every pair (first type, second type)
     // out of LONG, NULL, VAR_STRING, TINY -- then a type-less execution uses the second binding
     {
@@ -1421,7 +1436,7 @@ fn w_c16_c17_stmt() {
             }
         }
     }
-    println!("VERIF-NATIVE w_c16_c17_stmt cases=33 nontrivial=33");
+    println!("VERIF-NATIVE w_c16_c17_stmt cases=36 nontrivial=36");
 }
 
 #[test]
